@@ -38,5 +38,6 @@ Fixpoint mon_run (W : nat) (sc : list (stim * obs)) (enq started fin : nat) (pur
 Definition mon_C09 (c : wcase) : bool := mon_run (n (c_W c)) (c_script c) 0 0 0 true false false.
 
 Definition case := wcase.
-Definition verdict (c : case) : nat := if mon_C09 c then classify rel_C09 c else 1.
+Definition verdict (c : case) : nat :=
+  if negb (mon_nohang c) then 1 (* a caller hangs *) else if mon_C09 c then classify rel_C09 c else 1.
 Definition mismatches (cs : list case) : list (nat * nat) := collect verdict 0 cs.
